@@ -195,8 +195,13 @@ def strip_pert(d):
 def compare(res, base, d, mech, what):
     res.count("C09.comparisons")
     if d != base and strip_pert(d) == strip_pert(base):
+        # only the live PERT numbers (est/eft/lst/lft, critical path length) differ. They are the keys of
+        # the TSLACK/EST rules, so this is the same defect one step before it reaches a log (F13): reported,
+        # under its own mechanism name.
         res.count("C09.pert_only_differences")
-        return True
+        diff = B.first_diff(base, d)
+        res.violate("C09", mech + ":PERT-values-only", "%s: the final PERT values differ from the reference run; first difference %s" % (what, (diff,)), diff=str(diff)[:300])
+        return False
     if d != base:
         diff = B.first_diff(base, d)
         res.violate("C09", mech, "%s: result differs from the reference run; first difference %s" % (what, (diff,)), diff=str(diff)[:300])
